@@ -36,6 +36,7 @@ class WireJson(Harness):
 
     def shards(self, tier):
         out = [{"kind": "executor-msg", "cls": i} for i in range(15)] + [{"kind": "report"}, {"kind": "gateway"}]
+        out += [{"kind": "submit", "n": n, "multi": list(m)} for n in (1, 2) for m in itertools.product([0, 1], repeat=n)]
         for n in (0, 1, 2, 3):
             for multi in itertools.product([0, 1], repeat=n):
                 if n == 3 and tier == "quick" and sum(multi) > 1:
@@ -81,6 +82,8 @@ class WireJson(Harness):
                     raise Violation("foreign-object-accepted-as-report")
             elif k == "gateway":
                 self.gateway(ch)
+            elif k == "submit":
+                self.submit(ch, params)
             else:
                 job, spec = h_ctrl.build_job(ch, params["n"], params["multi"], params["n"] <= 1, None, with_ext=params["n"] <= 2)
                 ch.note("msg", {"tasks": len(job.tasks), "edges": len(job.edges)})
@@ -112,6 +115,37 @@ class WireJson(Harness):
             lambda: M.ExecutorExit(host=s), lambda: M.ExecutorRegistration(host=s, maddress=s, daddress=s, workers=[M.Worker(worker_id=w, cpu=1, gpu=n, memory_mb=n)]),
             lambda: M.ExecutorShutdown(), lambda: M.DatasetTransmitFailure(host=s, detail=s), lambda: M.WorkerReady(w), lambda: M.WorkerShutdown(),
         ][i]()
+
+    def submit(self, ch, params):
+        """A job instance travelling frontend -> gateway through the real request_response / parse_request / serialize_response."""
+        from vf import fakezmq
+
+        job, spec = h_ctrl.build_job(ch, params["n"], params["multi"], False, None, with_ext=True)
+        req = g_api.SubmitJobRequest(job=g_api.JobSpec(benchmark_name=None, envvars={"A": "1"}, job_instance=job, workers_per_host=2, hosts=1, use_slurm=False))
+        seen = {}
+
+        def server(address, raw):
+            seen["req"] = g_client.parse_request(raw)
+            return g_client.serialize_response(g_api.SubmitJobResponse(job_id="j1", error=None))
+
+        fakezmq.NET.reset()
+        fakezmq.NET.req_handler = server
+        try:
+            resp = g_client.request_response(req, "tcp://gw:1")
+        except Exception as e:
+            raise Violation(f"submit-roundtrip-raised-{type(e).__name__}", str(e)[:200])
+        finally:
+            fakezmq.NET.req_handler = None
+        ch.note("msg", {"tasks": len(job.tasks), "edges": len(job.edges)})
+        if resp != g_api.SubmitJobResponse(job_id="j1", error=None):
+            raise Violation("gateway-response-roundtrip", repr(resp))
+        got = seen["req"].job
+        gj = got.job_instance if not isinstance(got, dict) else JobInstance(**got["job_instance"])
+        if gj != job:
+            raise Violation("submitted-job-changed-on-the-wire", "job instance differs after frontend -> gateway")
+        for t in job.tasks:
+            if list(gj.tasks[t].definition.output_schema) != list(job.tasks[t].definition.output_schema):
+                raise Violation("output-declaration-order-lost", f"{t}: {list(gj.tasks[t].definition.output_schema)} vs {list(job.tasks[t].definition.output_schema)}")
 
     def gateway(self, ch):
         which = ch.pick(7, "which")
